@@ -1821,10 +1821,23 @@ func (a *arraySortCtx) Len() int {
 	return a.obj.sortLen()
 }
 
+// The comparison function can shrink the array while sort.Stable works with the length it
+// started with: positions that no longer exist read as absent and are not swapped.
+
 func (a *arraySortCtx) Less(j, k int) bool {
-	return a.sortCompare(a.obj.sortGet(j), a.obj.sortGet(k)) < 0
+	l := a.obj.sortLen()
+	var x, y Value
+	if j < l {
+		x = a.obj.sortGet(j)
+	}
+	if k < l {
+		y = a.obj.sortGet(k)
+	}
+	return a.sortCompare(x, y) < 0
 }
 
 func (a *arraySortCtx) Swap(j, k int) {
-	a.obj.swap(j, k)
+	if l := a.obj.sortLen(); j < l && k < l {
+		a.obj.swap(j, k)
+	}
 }
